@@ -41,6 +41,18 @@ TRUSTED_BASE = [
 ]
 
 
+def groups():
+    return json.load(open(os.path.join(VERIF, "groups.json")))
+
+
+def group_of(prop):
+    g = groups()
+    for name, v in g.items():
+        if prop in v["props"]:
+            return name, v
+    raise KeyError("property %s is in no group of groups.json" % prop)
+
+
 def log(*a):
     print(*a, file=sys.stderr, flush=True)
 
@@ -132,51 +144,66 @@ def in_section(src, lineno):
     return depth > 0
 
 
-def build_coq():
-    """full .vo build of the Rocq tree (incremental); returns (ok, log)"""
+def build_coq(prop=None):
+    """full .vo build (incremental) of what property `prop` depends on: its
+    Properties file and the extraction of its model group; all of the tree
+    when prop is None.  returns (ok, log)"""
     with Lock("coq"):
-        if not os.path.exists(os.path.join(COQ, "Makefile")) or os.path.getmtime(
-            os.path.join(COQ, "_CoqProject")
-        ) > os.path.getmtime(os.path.join(COQ, "Makefile")):
-            subprocess.run(
-                ["coq_makefile", "-f", "_CoqProject", "-o", "Makefile"],
-                cwd=COQ, check=True, stdout=subprocess.DEVNULL,
-            )
+        mk = os.path.join(COQ, "Makefile")
+        if not os.path.exists(mk) or os.path.getmtime(os.path.join(COQ, "_CoqProject")) > os.path.getmtime(mk):
+            subprocess.run(["coq_makefile", "-f", "_CoqProject", "-o", "Makefile"],
+                           cwd=COQ, check=True, stdout=subprocess.DEVNULL)
         os.makedirs(os.path.join(COQ, "extracted"), exist_ok=True)
-        p = subprocess.run(
-            ["timeout", "3000", "make", "-k", "-j%d" % NPROC],
-            cwd=COQ, stdout=subprocess.PIPE, stderr=subprocess.STDOUT, text=True,
-        )
+        targets = []
+        gname = None
+        if prop is not None:
+            gname, g = group_of(prop)
+            targets = ["Properties/%s.vo" % prop, g["extract"]]
+        p = subprocess.run(["timeout", "3000", "make", "-k", "-j%d" % NPROC] + targets,
+                           cwd=COQ, stdout=subprocess.PIPE, stderr=subprocess.STDOUT, text=True)
         ok = p.returncode == 0
-        if ok:
-            build_ocaml()
-        return ok, p.stdout
+        out = p.stdout
+        try:
+            if gname:
+                build_ocaml(gname)
+            elif ok:
+                for n in groups():
+                    build_ocaml(n)
+        except RuntimeError as e:
+            ok = False
+            out += "\n" + str(e)
+        return ok, out
 
 
-def build_ocaml():
-    d = os.path.join(BUILD, "ocaml")
+def build_ocaml(gname):
+    g = groups()[gname]
+    d = os.path.join(BUILD, "ocaml-" + gname)
     os.makedirs(d, exist_ok=True)
-    srcs = [
-        os.path.join(COQ, "extracted", "model.mli"),
-        os.path.join(COQ, "extracted", "model.ml"),
-        os.path.join(VERIF, "ocaml", "driver.ml"),
-    ]
-    exe = os.path.join(d, "modelrun")
-    if os.path.exists(exe) and all(os.path.getmtime(s) <= os.path.getmtime(exe) for s in srcs):
+    ml = os.path.join(COQ, "extracted", g["ml"] + ".ml")
+    mli = os.path.join(COQ, "extracted", g["ml"] + ".mli")
+    drv = os.path.join(VERIF, "ocaml", "driver.ml")
+    if not os.path.exists(ml):
         return
-    for s in srcs:
-        subprocess.run(["cp", s, d], check=True)
-    p = subprocess.run(
-        ["ocamlfind", "ocamlopt", "-O2", "-package", "zarith", "-linkpkg",
-         "model.mli", "model.ml", "driver.ml", "-o", "modelrun.tmp"],
-        cwd=d, stdout=subprocess.PIPE, stderr=subprocess.STDOUT, text=True,
-    )
+    exe = os.path.join(d, "modelrun")
+    srcs = [ml, mli, drv]
+    if os.path.exists(exe) and all(os.path.getmtime(x) <= os.path.getmtime(exe) for x in srcs):
+        return
+    subprocess.run(["cp", ml, os.path.join(d, "model.ml")], check=True)
+    subprocess.run(["cp", mli, os.path.join(d, "model.mli")], check=True)
+    subprocess.run(["cp", drv, os.path.join(d, "driver.ml")], check=True)
+    p = subprocess.run(["ocamlfind", "ocamlopt", "-O2", "-package", "zarith", "-linkpkg",
+                        "model.mli", "model.ml", "driver.ml", "-o", "modelrun.tmp"],
+                       cwd=d, stdout=subprocess.PIPE, stderr=subprocess.STDOUT, text=True)
     if p.returncode != 0:
         raise RuntimeError("ocaml build failed:\n" + p.stdout)
     os.replace(os.path.join(d, "modelrun.tmp"), exe)
 
 
-MODELRUN = os.path.join(BUILD, "ocaml", "modelrun")
+def modelrun(gname="core"):
+    return os.path.join(BUILD, "ocaml-" + gname, "modelrun")
+
+
+MODELRUN = modelrun("core")
 
 
 def print_assumptions(prop, names):
@@ -229,14 +256,16 @@ def assumptions_ok(text):
 
 
 def load_obligations(prop):
-    reg = json.load(open(os.path.join(VERIF, "obligations.json")))
-    return reg.get(prop, [])
+    p = os.path.join(VERIF, "obligations.d", prop + ".json")
+    if not os.path.exists(p):
+        return []
+    return json.load(open(p))
 
 
 def check_proofs(prop):
     """returns dict(obligations, discharged, details, failures)"""
     obs = load_obligations(prop)
-    ok, out = build_coq()
+    ok, out = build_coq(prop)
     hits = forbidden_scan()
     failures = []
     if hits:
@@ -283,7 +312,8 @@ def harness_dir():
     return os.path.join(BUILD, "harness-" + tag)
 
 
-def build_harness():
+def build_harness(gname="core"):
+    """build the harness binary of a group against the current tree of REPO"""
     d = harness_dir()
     with Lock("cargo-" + os.path.basename(d)):
         os.makedirs(d, exist_ok=True)
@@ -295,13 +325,11 @@ def build_harness():
         lock = os.path.join(d, "Cargo.lock")
         if not os.path.exists(lock):
             subprocess.run(["cp", os.path.join(REPO, "Cargo.lock"), lock], check=True)
-        p = subprocess.run(
-            ["cargo", "build", "--release", "--offline"],
-            cwd=d, env=child_env(), stdout=subprocess.PIPE, stderr=subprocess.STDOUT, text=True,
-        )
+        p = subprocess.run(["cargo", "build", "--release", "--offline", "--bin", "acbh_" + gname],
+                           cwd=d, env=child_env(), stdout=subprocess.PIPE, stderr=subprocess.STDOUT, text=True)
         if p.returncode != 0:
             return None, p.stdout
-        return os.path.join(d, "target", "release", "acbh"), p.stdout
+        return os.path.join(d, "target", "release", "acbh_" + gname), p.stdout
 
 
 def build_bins():
@@ -371,8 +399,8 @@ def run_harness(exe, mode, cases, nproc=NPROC):
     return [json.loads(o) for o in outs]
 
 
-def run_model(int_lists, nproc=NPROC):
-    outs = run_lines([MODELRUN], [" ".join(str(int(x)) for x in l) for l in int_lists], nproc)
+def run_model(int_lists, nproc=NPROC, group="core"):
+    outs = run_lines([modelrun(group)], [" ".join(str(int(x)) for x in l) for l in int_lists], nproc)
     res = []
     for o in outs:
         res.append([int(x) for x in o.split()])
